@@ -23,8 +23,11 @@ package verifharness
 //   sendenabled <denom> <0|1>                   -> ok          bank SendEnabled parameter
 //   suicide <contract>                          -> ok          self-destruct the contract (statedb.Suicide)
 //   block <addr>                                -> ok          declares an address the app's bank keeper blocks (checked)
-//   cc <sender|!> <receiver-raw> <denom> <amt>  -> ok|clean|err <codespace:code>|err basic|panic     MsgConvertCoin
-//   ce <contract-raw> <amt> <receiver|!> <sender-raw> <denom> -> (same)                              MsgConvertERC20
+//   cc <sender-raw> <sender-dec> <receiver-raw> <denom> <amt>  -> ok|clean|err <codespace:code>|err basic|panic     MsgConvertCoin
+//   ce <contract-raw> <amt> <receiver-raw> <receiver-dec> <sender-raw> <denom> -> (same)                             MsgConvertERC20
+//        every message runs its real ValidateBasic first and then the real msg server, as a transaction would.
+//        <…-raw> = the string of the message (hex of its bytes); <…-dec> = the harness' own prefix-agnostic bech32 decode of
+//        that string: "!" (not bech32) or <hex of hrp>.<payload hex> (checked on replay) — the model's bech32 primitive
 //   ics <receiver|!> <base denom> <voucher> <amt> -> errack|kept|ok|clean|panic     an ICS-20 packet (token of the sending chain,
 //                                                  transfer/channel-0) through the app's transfer route = aggregate middleware
 //                                                  over the real transfer application, on a cache context written iff the
@@ -57,6 +60,7 @@ import (
 	"github.com/tharsis/ethermint/x/evm/statedb"
 
 	"github.com/teleport-network/teleport/app"
+	cmdcfg "github.com/teleport-network/teleport/cmd/config"
 	erc20contracts "github.com/teleport-network/teleport/syscontracts/erc20"
 	aggtypes "github.com/teleport-network/teleport/x/aggregate/types"
 )
@@ -95,6 +99,7 @@ type c11World struct {
 	module    common.Address
 	cur       *c11Snap // snapshot of the current state (nil = stale)
 	extra     string   // a denomination observed by the oracle although it is not part of the dumps
+	extraAcct [][]byte // accounts observed by the oracle although they are not tracked (named in the message; the empty address)
 	mw        porttypes.IBCModule // the app's ICS-20 route: aggregate middleware over the real transfer application
 	seq       uint64
 }
@@ -110,6 +115,12 @@ func c11Addr(s string) common.Address { return common.HexToAddress("0x" + s) }
 func c11Hex(a common.Address) string  { return hex.EncodeToString(a.Bytes()) }
 
 func newC11World(t *testing.T) *c11World {
+	// the node sets the chain's bech32 prefixes at start-up (cmd/teleport); do the same, otherwise the process would
+	// validate addresses against the sdk default "cosmos"
+	cmdcfg.SetBech32Prefixes(sdk.GetConfig())
+	if p := sdk.GetConfig().GetBech32AccountAddrPrefix(); p != "teleport" {
+		t.Fatalf("account prefix %q: the model's chainPrefix is \"teleport\"", p)
+	}
 	a := app.Setup(false, nil)
 	priv, err := ethsecp256k1.GenerateKey()
 	if err != nil {
@@ -309,6 +320,14 @@ func (w *c11World) snap(ctx sdk.Context) *c11Snap {
 		sb.WriteString(" D" + hxs(d) + ":" + sup.String() + ":" + strings.Join(bals, ",") + ":" + pa)
 	}
 	s.text = sb.String()
+	for _, ea := range w.extraAcct {
+		for _, d := range append(append([]string{}, w.denoms...), w.extra) {
+			k := hex.EncodeToString(ea) + "|" + d
+			if _, ok := s.coin[k]; !ok && sdk.ValidateDenom(d) == nil {
+				s.coin[k] = w.app.BankKeeper.GetBalance(ctx, sdk.AccAddress(ea), d).Amount.BigInt()
+			}
+		}
+	}
 	if _, ok := s.supply[w.extra]; !ok && sdk.ValidateDenom(w.extra) == nil {
 		s.supply[w.extra] = w.app.BankKeeper.GetSupply(ctx, w.extra).Amount.BigInt()
 		for _, a := range accs {
@@ -387,8 +406,11 @@ type c11Msg struct {
 	token    string // string looked up first (denom for cc, contract for ce)
 	denom    string
 	amt      *big.Int
-	sender   common.Address
+	sender   common.Address // 20-byte view (EVM side)
 	receiver common.Address
+	named    string // the bech32 string of the message (sender of cc, receiver of ce)
+	sBytes   []byte // the accounts NAMED IN THE MESSAGE, decoded by the harness' own prefix-agnostic decoders
+	rBytes   []byte
 	okAddrs  bool
 }
 
@@ -417,7 +439,7 @@ func (w *c11World) oracleMsg(r *Rec, m c11Msg, out string, s0, s1 *c11Snap, p c1
 			w.find(r, "C11:gate:module-disabled:"+kind, "message accepted while the module is disabled", out, "rejected")
 		case p.found && !p.enabled:
 			w.find(r, "C11:gate:pair-disabled:"+kind, "message accepted while the pair is disabled", out, "rejected")
-		case m.okAddrs && w.app.BankKeeper.BlockedAddr(m.receiver.Bytes()):
+		case m.okAddrs && len(m.rBytes) > 0 && w.app.BankKeeper.BlockedAddr(m.rBytes):
 			w.find(r, "C11:gate:blocked-receiver:"+kind, "message accepted with a blocked receiver", out, "rejected")
 		}
 	}
@@ -462,7 +484,11 @@ func (w *c11World) oracleMsg(r *Rec, m c11Msg, out string, s0, s1 *c11Snap, p c1
 	amt := m.amt
 	neg := new(big.Int).Neg(amt)
 	zero := big.NewInt(0)
-	sH, rH, mH := c11Hex(m.sender), c11Hex(m.receiver), c11Hex(w.module)
+	sH, rH, mH := hex.EncodeToString(m.sBytes), hex.EncodeToString(m.rBytes), c11Hex(w.module)
+	if !m.okAddrs {
+		w.find(r, "C11:accepted-with-unreadable-address:"+kind, "message accepted although an address named in it is not readable (bech32 / hex)", out, "rejected")
+		return
+	}
 	listed := false
 	for _, d := range p.denoms {
 		if d == m.denom {
@@ -497,6 +523,14 @@ func (w *c11World) oracleMsg(r *Rec, m c11Msg, out string, s0, s1 *c11Snap, p c1
 				wantTok[ch+"|"+sH] = neg
 			}
 		}
+	}
+	// the account NAMED IN THE MESSAGE (decoded by the harness itself, whatever its bech32 prefix) is the one that pays / is paid
+	if m.coin {
+		if d := c11Delta(s0.coin[sH+"|"+m.denom], s1.coin[sH+"|"+m.denom]); !c11Eq(d, neg) && c11Hex(w.module) != sH {
+			w.find(r, "C11:named-sender-not-debited:cc", "the account named as sender did not lose exactly the amount", c11Num(d), neg.String())
+		}
+	} else if d := c11Delta(s0.coin[rH+"|"+m.denom], s1.coin[rH+"|"+m.denom]); !c11Eq(d, amt) {
+		w.find(r, "C11:named-receiver-not-credited:ce", "the account named as receiver did not gain exactly the amount", c11Num(d), amt.String())
 	}
 	// sender side / receiver side exact
 	for k, v0 := range s0.coin {
@@ -611,15 +645,25 @@ func (w *c11World) oracleBacking(r *Rec, s *c11Snap) {
 	}
 }
 
-func (w *c11World) deliver(r *Rec, m c11Msg, validate func() error, handle func(ctx sdk.Context) (bool, error)) string {
-	if w.extra != m.denom {
-		w.extra = m.denom
-		if w.cur != nil {
-			if _, ok := w.cur.supply[m.denom]; !ok {
-				w.cur = nil
-			}
-		}
+// shape of a bech32-named account (by the harness' own decode), for the distribution counters
+func c11AddrClass(raw string) string {
+	hrp, b, ok := c11Bech32Decode(raw)
+	switch {
+	case !ok:
+		return "unreadable"
+	case hrp != "teleport":
+		return "foreign"
+	case len(b) == 20 && raw == strings.ToUpper(raw):
+		return "chain20upper"
+	default:
+		return fmt.Sprintf("chain%d", len(b))
 	}
+}
+
+func (w *c11World) deliver(r *Rec, m c11Msg, validate func() error, handle func(ctx sdk.Context) (bool, error)) string {
+	w.extra = m.denom
+	w.extraAcct = [][]byte{{}, m.sBytes, m.rBytes} // the empty address is always watched
+	w.cur = nil
 	s0 := w.current()
 	p := w.resolve(w.ctx, m.token)
 	if !m.coin {
@@ -661,6 +705,13 @@ func (w *c11World) deliver(r *Rec, m c11Msg, validate func() error, handle func(
 	k := "cc."
 	if !m.coin {
 		k = "ce."
+	}
+	if m.named != "" {
+		acc := "rejected"
+		if cls == "ok" || cls == "clean" {
+			acc = "accepted"
+		}
+		r.Count("addr." + c11AddrClass(m.named) + "." + acc)
 	}
 	r.Count(k + cls)
 	if cls == "err" {
@@ -827,18 +878,21 @@ func (w *c11World) apply(r *Rec, op string) string {
 		}
 		return "ok"
 	case "cc":
-		recvRaw, d := str(f[2]), str(f[3])
-		amt := c11Big(f[4])
-		senderStr := "teleport1notbech32"
-		m := c11Msg{coin: true, token: d, denom: d, amt: amt, okAddrs: true}
-		if f[1] != "!" {
-			m.sender = c11Addr(f[1])
-			senderStr = sdk.AccAddress(m.sender.Bytes()).String()
+		senderStr, recvRaw, d := str(f[1]), str(f[3]), str(f[4])
+		amt := c11Big(f[5])
+		if c11DecField(senderStr) != f[2] {
+			r.t.Fatalf("cc: sender %q decodes to %s, op says %s", senderStr, c11DecField(senderStr), f[2])
+		}
+		m := c11Msg{coin: true, token: d, denom: d, amt: amt, okAddrs: true, named: senderStr}
+		if _, b, ok := c11Bech32Decode(senderStr); ok {
+			m.sBytes = b
+			m.sender = common.BytesToAddress(b)
 		} else {
 			m.okAddrs = false
 		}
-		if common.IsHexAddress(recvRaw) {
-			m.receiver = common.HexToAddress(recvRaw)
+		if b, ok := c11HexAddr(recvRaw); ok {
+			m.rBytes = b
+			m.receiver = common.BytesToAddress(b)
 		} else {
 			m.okAddrs = false
 		}
@@ -848,18 +902,21 @@ func (w *c11World) apply(r *Rec, op string) string {
 			return res == nil, err
 		})
 	case "ce":
-		cRaw, sRaw, d := str(f[1]), str(f[4]), str(f[5])
+		cRaw, recvStr, sRaw, d := str(f[1]), str(f[3]), str(f[5]), str(f[6])
 		amt := c11Big(f[2])
-		recvStr := "teleport1notbech32"
-		m := c11Msg{coin: false, token: cRaw, denom: d, amt: amt, okAddrs: true}
-		if f[3] != "!" {
-			m.receiver = c11Addr(f[3])
-			recvStr = sdk.AccAddress(m.receiver.Bytes()).String()
+		if c11DecField(recvStr) != f[4] {
+			r.t.Fatalf("ce: receiver %q decodes to %s, op says %s", recvStr, c11DecField(recvStr), f[4])
+		}
+		m := c11Msg{coin: false, token: cRaw, denom: d, amt: amt, okAddrs: true, named: recvStr}
+		if _, b, ok := c11Bech32Decode(recvStr); ok {
+			m.rBytes = b
+			m.receiver = common.BytesToAddress(b)
 		} else {
 			m.okAddrs = false
 		}
-		if common.IsHexAddress(sRaw) {
-			m.sender = common.HexToAddress(sRaw)
+		if b, ok := c11HexAddr(sRaw); ok {
+			m.sBytes = b
+			m.sender = common.BytesToAddress(b)
 		} else {
 			m.okAddrs = false
 		}
